@@ -902,6 +902,8 @@ def fixed_histories():
                 ])
     # keys: a degree whose number of points is itself a shipped degree; the same degree in all four methods
     out.append([{"op": "angular", "method": "maxdet", "degree": a, "cache": True} for a in (1, 4, 2, 9, 3, 16, 4, 1)])
+    out.append([{"op": "angular", "method": "maxdet", "degree": a, "cache": True} for a in (4, 1, 9, 2, 16, 3, 1, 4)])
+    out.append([{"op": "angular", "method": "ahrens_beylkin", "degree": a, "cache": True} for a in (72, 14, 72, 14)])
     out.append([{"op": "angular", "method": "maxdet", "size": s, "cache": True} for s in (4, 16, 9)]
                + [{"op": "angular", "method": "maxdet", "degree": a, "cache": c} for a in (4, 16, 9, 3, 2) for c in (True, False)])
     for deg in (19, 23):
@@ -1144,11 +1146,11 @@ def grid_family(col, tier, seed, only=None):
     fixed = fixed_histories()
     if tier == "quick":
         # a seed-dependent third of the hand-made histories plus random ones
-        sel = [h for k, h in enumerate(fixed) if k % 3 == seed % 3 or k >= len(fixed) - 8]
+        sel = [h for k, h in enumerate(fixed) if k % 3 == seed % 3 or k >= len(fixed) - 10]
         nrand, fresh_every = 26, 1
     else:
         sel = fixed
-        nrand, fresh_every = 400, 1
+        nrand, fresh_every = 250, 1
     for h in sel:
         history_contract(col, h, fresh=True, only=only)
     themes = ["mixed", "mixed", "edits", "mixed", "edits", "coulomb"]
